@@ -8,6 +8,7 @@ import (
 	"testing"
 
 	"github.com/reactivego/ivg"
+	"github.com/reactivego/ivg/decode"
 	"github.com/reactivego/ivg/render"
 	"pgregory.net/rapid"
 
@@ -15,6 +16,7 @@ import (
 	"verif/internal/harness"
 	"verif/internal/ops"
 	"verif/internal/rast"
+	"verif/internal/spec"
 )
 
 func TestMain(m *testing.M) { harness.Main(m, "C06") }
@@ -43,8 +45,50 @@ type Case struct {
 	// Earlier: the same Renderer first drew the same arc with the viewBox and
 	// all coordinates moved by this many whole units (the same picture in
 	// pixel space, another coordinate system).
-	Earlier [2]int  `json:"earlier_shift,omitempty"`
-	Want    *Expect `json:"want,omitempty"` // constructive expectation; nil => independent F.6.5
+	Earlier [2]int `json:"earlier_shift,omitempty"`
+	// ViaBytes: the arc reaches the Renderer through decode.Decode, from a hand-assembled stream
+	// whose numbers are all in the 4-byte form (every value of the case is a 30-bit float then;
+	// rotations outside [0,1] are legal in a file).
+	ViaBytes bool    `json:"via_bytes,omitempty"`
+	Want     *Expect `json:"want,omitempty"` // constructive expectation; nil => independent F.6.5
+}
+
+// trunc30 clears the two mantissa bits the 4-byte number form does not store.
+func trunc30(v ops.F32) ops.F32 {
+	return ops.F32(math.Float32frombits(math.Float32bits(float32(v)) &^ 3))
+}
+
+// arcStream spells the case as an IconVG file: viewBox chunk, start path, one arc, end path,
+// every number in the 4-byte form.
+func arcStream(c Case) []byte {
+	num := func(v ops.F32) []byte { return spec.EncodeNaturalW(math.Float32bits(float32(v))>>2, 4) }
+	b := append([]byte{}, spec.Magic...)
+	b = append(b, 0x02, 17<<1, 0x00)
+	for _, v := range c.ViewBox {
+		b = append(b, num(v)...)
+	}
+	b = append(b, 0xc0)
+	b = append(b, num(c.Start[0])...)
+	b = append(b, num(c.Start[1])...)
+	op := byte(0xc0)
+	if c.Rel {
+		op = 0xd0
+	}
+	flags := byte(0)
+	if c.LargeArc {
+		flags |= 1
+	}
+	if c.Sweep {
+		flags |= 2
+	}
+	b = append(b, op)
+	b = append(b, num(c.RX)...)
+	b = append(b, num(c.RY)...)
+	b = append(b, num(c.Rot)...)
+	b = append(b, flags<<1)
+	b = append(b, num(c.To[0])...)
+	b = append(b, num(c.To[1])...)
+	return append(b, 0xe1)
 }
 
 // svgCenter is SVG 1.1 implementation note F.6.5 with the F.6.6 radii
@@ -119,19 +163,27 @@ func checkArc(c Case) error {
 		rr.Calls = rr.Calls[:0]
 	}
 	z.SetRasterizer(rr, rect)
-	z.Reset(gen.VB(vb), ivg.DefaultPalette)
-	z.StartPath(0, float32(c.Start[0]), float32(c.Start[1]))
-	if n := len(rr.Calls); c.Earlier != [2]int{} && n > 0 && rr.Calls[n-1].K == rast.MoveTo && rr.Calls[n-1].F[0] == earlierEnd[0] && rr.Calls[n-1].F[1] == earlierEnd[1] {
-		earlierCoincides++
-	}
 	kind := ops.AbsArcTo
 	if c.Rel {
 		kind = ops.RelArcTo
-		z.RelArcTo(float32(c.RX), float32(c.RY), float32(c.Rot), c.LargeArc, c.Sweep, float32(c.To[0]), float32(c.To[1]))
-	} else {
-		z.AbsArcTo(float32(c.RX), float32(c.RY), float32(c.Rot), c.LargeArc, c.Sweep, float32(c.To[0]), float32(c.To[1]))
 	}
-	z.ClosePathEndPath()
+	if c.ViaBytes {
+		if err := decode.Decode(&z, arcStream(c)); err != nil {
+			return harness.Violatef("c06/decode-error", "Decode of the assembled one-arc graphic: %v", err)
+		}
+	} else {
+		z.Reset(gen.VB(vb), ivg.DefaultPalette)
+		z.StartPath(0, float32(c.Start[0]), float32(c.Start[1]))
+		if n := len(rr.Calls); c.Earlier != [2]int{} && n > 0 && rr.Calls[n-1].K == rast.MoveTo && rr.Calls[n-1].F[0] == earlierEnd[0] && rr.Calls[n-1].F[1] == earlierEnd[1] {
+			earlierCoincides++
+		}
+		if c.Rel {
+			z.RelArcTo(float32(c.RX), float32(c.RY), float32(c.Rot), c.LargeArc, c.Sweep, float32(c.To[0]), float32(c.To[1]))
+		} else {
+			z.AbsArcTo(float32(c.RX), float32(c.RY), float32(c.Rot), c.LargeArc, c.Sweep, float32(c.To[0]), float32(c.To[1]))
+		}
+		z.ClosePathEndPath()
+	}
 	calls := rr.Calls
 	if len(calls) < 4 || calls[0].K != rast.Reset || calls[1].K != rast.MoveTo || calls[len(calls)-2].K != rast.ClosePath || calls[len(calls)-1].K != rast.Draw {
 		return harness.Violatef("c06/call-sequence", "unexpected rasteriser log around the arc: %v", calls)
@@ -339,7 +391,7 @@ func genConstructive(t *rapid.T) Case {
 	rot := float64(float32(genRot(t)))
 	phi := 2 * math.Pi * rot
 	th1 := rapid.Float64Range(0, 2*math.Pi).Draw(t, "theta1")
-	family := rapid.SampledFrom([]string{"fits", "fits", "fits", "undersized", "exact-fit", "near-full"}).Draw(t, "family")
+	family := rapid.SampledFrom([]string{"fits", "fits", "fits", "undersized", "exact-fit", "near-full", "shallow"}).Draw(t, "family")
 	if family == "exact-fit" {
 		// radii that span the chord exactly (a half turn; what a circle drawn as
 		// two arcs uses): values on a coarse grid so that the fit is exact or
@@ -366,6 +418,9 @@ func genConstructive(t *rapid.T) Case {
 		}
 	} else if family == "exact-fit" {
 		delta = math.Pi
+	} else if family == "shallow" {
+		// a very flat arc: a radius hundreds to thousands of times the chord
+		delta = math.Pow(10, -rapid.Float64Range(1.5, 4).Draw(t, "flat"))
 	} else if family == "near-full" {
 		// almost the whole ellipse: the end point nearly closes it (a full circle drawn as one arc)
 		delta = 2*math.Pi - math.Pow(10, -rapid.Float64Range(1, 4.5).Draw(t, "gap"))
@@ -493,7 +548,7 @@ func classify(c Case) (bool, []string) {
 	if c.Want != nil {
 		labels = append(labels, "constructive-expectation")
 	}
-	nt := rotated && nonCircular && (nonUniform || offOrigin) || c.Family == "undersized" || c.Family == "exact-fit" || c.Family == "near-full" || c.Family == "direct-scale-up" || c.Family == "zero-radius"
+	nt := rotated && nonCircular && (nonUniform || offOrigin) || c.Family == "undersized" || c.Family == "exact-fit" || c.Family == "near-full" || c.Family == "shallow" || c.Family == "direct-scale-up" || c.Family == "zero-radius"
 	return nt, labels
 }
 
@@ -511,7 +566,23 @@ func TestArcs(t *testing.T) {
 		if rapid.IntRange(0, 3).Draw(t, "earlier") == 0 {
 			c.Earlier = [2]int{rapid.IntRange(-40, 40).Draw(t, "edx"), rapid.IntRange(-40, 40).Draw(t, "edy")}
 		}
+		if rapid.IntRange(0, 4).Draw(t, "viabytes") == 0 {
+			c.ViaBytes = true
+			for i := range c.ViewBox {
+				c.ViewBox[i] = trunc30(c.ViewBox[i])
+			}
+			c.Start = [2]ops.F32{trunc30(c.Start[0]), trunc30(c.Start[1])}
+			c.To = [2]ops.F32{trunc30(c.To[0]), trunc30(c.To[1])}
+			c.RX, c.RY, c.Rot = trunc30(c.RX), trunc30(c.RY), trunc30(c.Rot)
+			c.Want = nil // constructed for the values before truncation: the independent F.6.5 reference decides
+		}
 		nt, labels := classify(c)
+		if c.ViaBytes {
+			labels = append(labels, "through-Decode-from-an-assembled-stream")
+			if c.Rot < 0 || c.Rot > 1 {
+				labels = append(labels, "file-with-a-rotation-outside-[0,1]")
+			}
+		}
 		if c.Earlier != [2]int{} {
 			labels = append(labels, "renderer-drew-the-reverse-arc-in-a-shifted-viewbox-before")
 		}
